@@ -428,7 +428,7 @@ inline void section_index(const std::string& name, long N, const std::function<v
         [&](int w, bool resume) {
             WorkerShm& s = g_shm[w];
             long start = resume ? s.cur_index + W : w;
-            g_samples_left = (w == 0 && !resume) ? 3 : 0;
+            g_samples_left = resume ? 1 : (w < 4 ? 2 : 0);
             g_case_fn = [&s]() { return std::to_string(s.cur_index); };
             long k = 0;
             for (long i = start; i < N; i += W) {
@@ -524,7 +524,7 @@ inline void section_dfs(const std::string& name, int split, bool prune_states, c
             std::unordered_map<unsigned long long, int> seen;
             Chooser ch; ch.seen = prune_states ? &seen : nullptr; ch.split = split;
             g_chooser = &ch;
-            g_samples_left = (w == 0 && !resume) ? 3 : 0;
+            g_samples_left = resume ? 1 : (w < 4 ? 2 : 0);
             g_case_fn = [&ch]() { return vec_str(ch.c.data(), (int)ch.c.size()); };
             std::vector<unsigned char> cur, c, n;
             bool have = false;
